@@ -94,6 +94,8 @@ LABELINGS = {
     "zero": lambda: Labeling("zero", lambda i: i - 1),
     "int_rev": lambda: Labeling("int_rev", lambda i: 100 - i, shift=0, swap_undirected=True),
     "neg": lambda: Labeling("neg", lambda i: -i * 3, shift=-7),
+    # instants around 0: abstract 0..k become -2..k-2 (intervals that end or start exactly at 0, negative starts)
+    "cross0": lambda: Labeling("cross0", lambda i: i - 2, shift=-2),
     "big": lambda: Labeling("big", lambda i: 10 ** 9 + i, shift=10 ** 6),
     "str": lambda: Labeling("str", lambda i: "n%s" % chr(96 + i) if i < 27 else "m%d" % i, shift=3),
     "tuple": lambda: Labeling("tuple", lambda i: (i, "x"), shift=-2),
